@@ -128,6 +128,34 @@ class Note(Base):
     key = mapped_column(String)
 
 
+# --- one-to-many collections WITHOUT a backref (list / set / keyed dict on one parent class) --------------
+class PlainP(Base):
+    __tablename__ = "plain_p"
+    id = mapped_column(Integer, primary_key=True)
+    items_list = relationship("PItemL", order_by="PItemL.id")
+    items_set = relationship("PItemS", collection_class=set)
+    items_dict = relationship("PItemD", collection_class=attribute_keyed_dict("key"))
+
+
+class PItemL(Base):
+    __tablename__ = "p_item_l"
+    id = mapped_column(Integer, primary_key=True)
+    parent_id = mapped_column(ForeignKey("plain_p.id"))
+
+
+class PItemS(Base):
+    __tablename__ = "p_item_s"
+    id = mapped_column(Integer, primary_key=True)
+    parent_id = mapped_column(ForeignKey("plain_p.id"))
+
+
+class PItemD(Base):
+    __tablename__ = "p_item_d"
+    id = mapped_column(Integer, primary_key=True)
+    parent_id = mapped_column(ForeignKey("plain_p.id"))
+    key = mapped_column(String)
+
+
 reg.configure()
 
 STATE_FLAGS = ("transient", "pending", "persistent", "deleted", "detached")
